@@ -502,7 +502,7 @@ PROPS["C11"] = {
              "'steps'). configure-race unit: a 300-file directory; 16 (thorough 64 per shard) times a file already passed by the scan is "
              "replaced at a delay spread over the duration of one scan while Configure / NewCache runs; the cache must still converge "
              "(the watch has to exist before the scan). regress unit: scripted histories with explicit pacing (cache lock held to delay "
-             "the watcher) for F10, F17 and F18. addrace unit: one directory is created and removed / renamed away 20..300 times in a tight loop "
+             "the watcher) for F10, F17, F18 and F21; one configuration in four nests the second directory inside the first. addrace unit: one directory is created and removed / renamed away 20..300 times in a tight loop "
              "while 1..3 goroutines keep querying (every query and event tries to watch it again), then a complete directory is renamed "
              "into place and the cache must converge (F19: a watch added to a directory that was already leaving). dirchurn unit: the same machine restricted to directory-level churn (mkdir, remove, rename "
              "away, rename into place) plus empty creates and move-ins, so that histories are dense in the transitions in which a watch has "
@@ -523,7 +523,7 @@ PROPS["C11"] = {
     },
     "parallel": 16,
     "health": {"quick": {"op:moveIn": 500, "op:linkIn": 500, "op:createEmpty": 300, "op:removeDir": 500, "op:mkdirMissing": 300, "op:rewriteInChunks": 500,
-                         "op:renameInside": 500, "op:renameAway": 500, "op:renameDirAway": 300, "op:renameDirIn": 100, "target:already-scanned": 20, "target:not-yet-scanned": 20, "last:moveIn": 20, "last:linkIn": 20, "last:remove": 20}},
+                         "op:renameInside": 500, "op:renameAway": 500, "op:renameDirAway": 300, "op:renameDirIn": 100, "nested-directories": 100, "target:already-scanned": 20, "target:not-yet-scanned": 20, "last:moveIn": 20, "last:linkIn": 20, "last:remove": 20}},
     "units": [
         {"name": "regress", "mode": "plain", "run": "TestC11Regress", "race": True},
         {"name": "configure-race", "mode": "plain", "run": "TestC11ConfigureRace", "race": True, "shards": {"quick": 2, "thorough": 8},
@@ -600,6 +600,9 @@ PROPS["C20"] = {
              "directory, through a symbolic link) while one generated change is made in a final directory already scanned or not yet scanned; "
              "afterwards the cache must converge to the view of a new cache with the final options ('reacting to changes in exactly the final "
              "directories' includes a change that lands between the start of the watch and the end of the scan). "
+             "inflight unit: a first directory of 50..250 files keeps the watcher goroutine busy; 1..4 events are produced in it with drawn "
+             "gaps of 0..3 ms and Configure(WithAutoRefresh(false)) is called at once; a Spec written into the second directory after "
+             "Configure returned must not be visible 150 ms later without Refresh() and must be visible after it (F22). "
              "Non-trivial iff >= 3 reconfigurations including an auto switch or a directory-list change, or a shortage window (rapid); "
              ">= 2 cdi.Configure calls (defcache); distinct = distinct histories."),
     "assumptions": ["known finding F16 (partial shortage with a reusable watcher) is excluded by construction and probed separately (unit known-f16)",
@@ -618,6 +621,7 @@ PROPS["C20"] = {
         {"name": "growth", "mode": "plain", "run": "TestC20Growth", "race": True},
         {"name": "defcache", "mode": "rapid", "run": "TestC20DefaultCache", "race": True, "shards": 8, "checks": {"quick": 400, "thorough": 8000}},
         {"name": "during", "mode": "rapid", "run": "TestC20During", "race": True, "shards": 4, "checks": {"quick": 320, "thorough": 8000}},
+        {"name": "inflight", "mode": "rapid", "run": "TestC20InFlight", "race": True, "shards": 8, "checks": {"quick": 120, "thorough": 3000}},
         {"name": "known-f16", "mode": "plain", "run": "TestC20KnownF16", "race": True},
     ],
 }
